@@ -33,6 +33,9 @@ type c14Input struct {
 	Mode  string   `json:"mode"` // bound, all, perm
 	Bound int      `json:"bound,omitempty"`
 	Perm  []int    `json:"perm,omitempty"`
+	// Again: the Querier and Engine have answered the same query once before (counters are reset in between): what a
+	// finished evaluation leaves behind must not keep the next one from closing its readers or reporting its faults
+	Again bool `json:"again,omitempty"`
 }
 
 type c14Shape struct {
@@ -170,7 +173,7 @@ func canonResult(data lokiapi.QueryResponseData) string {
 }
 
 // runEval executes Engine.Eval over a fresh fake client under a fresh scheduler.
-func runEval(c *vsched.Ctx, ctrs []fakedocker.Container, listErr error, perm []int, plan fakedocker.ReadPlan, query string, params logqlengine.EvalParams) c14Obs {
+func runEval(c *vsched.Ctx, ctrs []fakedocker.Container, listErr error, perm []int, plan fakedocker.ReadPlan, query string, params logqlengine.EvalParams, again ...bool) c14Obs {
 	var obs c14Obs
 	fake := fakedocker.New(ctrs)
 	fake.ListErr = listErr
@@ -194,7 +197,17 @@ func runEval(c *vsched.Ctx, ctrs []fakedocker.Container, listErr error, perm []i
 			s.Yield(label)
 		}
 		q, _ := dockerlog.NewQuerier(fake)
-		data, err := newEngine(q).Eval(context.Background(), query, params)
+		eng := newEngine(q)
+		if len(again) > 0 && again[0] {
+			gg := g
+			g = nil // the earlier evaluation runs ungated
+			_, _ = eng.Eval(context.Background(), query, params)
+			n := len(ctrs)
+			fake.Calls, fake.OpenOrder = nil, nil
+			fake.Opened, fake.Closed, fake.ReadBytes = make([]int, n), make([]int, n), make([]int, n)
+			g = gg
+		}
+		data, err := eng.Eval(context.Background(), query, params)
 		if err != nil {
 			obs.Err = err.Error()
 			return
@@ -229,7 +242,7 @@ func c14Exec(c *vsched.Ctx, in c14Input) c14Obs {
 			return max, nil
 		}
 	}
-	return runEval(c, ctrs, listErr, in.Perm, plan, sh.query, sh.params)
+	return runEval(c, ctrs, listErr, in.Perm, plan, sh.query, sh.params, in.Again)
 }
 
 // c14Baseline: the fault-free run of a shape under the default schedule (how far each reader is consumed).
@@ -374,6 +387,7 @@ func c14Run(r *vkit.Run) {
 		// fault-free, every schedule within the bound
 		emit(c14Input{Shape: sh.name, Fault: c14Fault{Kind: "none"}, Mode: "bound", Bound: 2})
 		// open-time faults act while the goroutines run: all schedules (thorough) / preemption bound 2 (quick)
+		emit(c14Input{Shape: sh.name, Fault: c14Fault{Kind: "none"}, Mode: "bound", Bound: 1, Again: true})
 		emit(c14Input{Shape: sh.name, Fault: c14Fault{Kind: "list"}, Mode: "bound", Bound: 1})
 		for i := 0; i < sh.n; i++ {
 			emit(c14Input{Shape: sh.name, Fault: c14Fault{Kind: "open", Ctr: i}, Mode: openMode, Bound: openBound})
@@ -414,8 +428,15 @@ func c14Run(r *vkit.Run) {
 					for _, pm := range ps {
 						emit(c14Input{Shape: sh.name, Fault: c14Fault{Kind: kind, Ctr: i, At: k}, Mode: "perm", Perm: nilIf(sh.n == 1, pm)})
 					}
+					emit(c14Input{Shape: sh.name, Fault: c14Fault{Kind: kind, Ctr: i, At: k}, Mode: "perm", Perm: nilIf(sh.n == 1, ps[0]), Again: true})
 				}
 			}
+			// the same faults met by a Querier and Engine that have evaluated the query before
+			for p := 0; p <= len(full); p += 5 {
+				emit(c14Input{Shape: sh.name, Fault: c14Fault{Kind: "readerr", Ctr: i, At: p}, Mode: "perm", Perm: nilIf(sh.n == 1, ps[0]), Again: true})
+				emit(c14Input{Shape: sh.name, Fault: c14Fault{Kind: "truncate", Ctr: i, At: p}, Mode: "perm", Perm: nilIf(sh.n == 1, ps[len(ps)-1]), Again: true})
+			}
+			emit(c14Input{Shape: sh.name, Fault: c14Fault{Kind: "open", Ctr: i}, Mode: "bound", Bound: 1, Again: true})
 		}
 	}
 	r.Note("bounds", fmt.Sprintf("%d query shapes (log over 1/2/3 containers, with limit, range and instant count_over_time, arithmetic and set operations between two storage selections); single faults: a reader whose Close fails, ContainerList error, ContainerLogs error of each container (a plain error and dockerd's not-found error) and of each pair (schedules: %s), read error at every byte offset and truncation at every byte offset of every stream, daemon-error frame and unparsable timestamp at every frame (all N! completion orders; read errors also preemption bound 1 on a 1/9 lattice)", len(c14Shapes), map[string]string{"bound": "preemption bound 2", "all": "every interleaving"}[openMode]))
